@@ -135,3 +135,76 @@ Theorem C07_image_fetch_in_range : forall im x y, image_wf im ->
   (exists x' y', repeat_fetch im x y = img_at im x' y' /\ in_img im x' y').
 Proof. intros im x y H. split; [exact (pad_fetch_in_range im x y H)|exact (repeat_fetch_in_range im x y H)]. Qed.
 Print Assumptions C07_image_fetch_in_range.
+
+(* ---- the rasteriser with curve edges (RasterTotal.v) ---- *)
+Require Import RQ.RasterTotal.
+
+(* (14) Rasterizer::rasterize is total for ANY list of add_edge calls on a fresh rasteriser - straight and curve edges,
+   arbitrary integer coordinates, monotone or not - provided no slope quotient computed by ActiveEdge::step wraps the
+   i32 range (no_slope_wrap; decidable: no_slope_wrapb; no wrap was found for coordinates within +-4000 px, and a wrap
+   needs a curve tens of thousands of pixels wide, see RasterTotal.NOTES.md).  No division by zero, no index outside
+   the coverage buffer, no u8 overflow; both blitters.  _partial because of that hypothesis. *)
+Theorem C07_rasterize_total_partial : forall rule W H es,
+  0 <= W -> 0 <= H -> (forall a, In a es -> no_slope_wrap a) ->
+  let r := fold_left add_any es (rast_new W H) in
+  let b := get_bounds r in
+  0 <= r_w b -> 0 <= r_h b ->
+  (exists r' m', rasterize blit_super rule r (maskbuf_new (x0 b) (y0 b) (r_w b) (r_h b)) = Ok (r', m') /\
+     length (m_buf m') = Z.to_nat (r_w b * r_h b + 1) /\ bytes_ok (m_buf m')) /\
+  (exists r' m', rasterize blit_mask rule r (maskbuf_new (x0 b) (y0 b) (r_w b) (r_h b)) = Ok (r', m') /\
+     length (m_buf m') = Z.to_nat (r_w b * r_h b + 1) /\ bytes_ok (m_buf m')).
+Proof.
+  intros rule W H es HW HH Ha r b Hw Hh. split.
+  - exact (rasterize_total rule W H es HW HH Ha Hw Hh).
+  - exact (rasterize_total_aliased rule W H es HW HH Ha Hw Hh).
+Qed.
+Print Assumptions C07_rasterize_total_partial.
+
+(* (15) the statement (14) was FALSE for the crate as pinned: with the step of the original code the curve
+   (6.75,0) (1,0.5) (1,0.75) on an 8x4 surface makes the antialiasing blitter index the coverage buffer at -1.
+   The proof attempt produced this witness; the crate panicked on it; repaired by fix commits 3346b5e and 47902b1. *)
+Theorem C07_rasterize_legacy_refuted :
+  let r := fold_left add_any witness_aa (rast_new 8 4) in
+  let b := get_bounds r in
+  b = mkrect 1 0 8 1 /\
+  rasterize_legacy blit_super NonZero r (maskbuf_new (x0 b) (y0 b) (r_w b) (r_h b)) = Err OutOfBounds /\
+  is_ok (rasterize blit_super NonZero r (maskbuf_new (x0 b) (y0 b) (r_w b) (r_h b))) = true.
+Proof. exact rasterize_legacy_refuted. Qed.
+Print Assumptions C07_rasterize_legacy_refuted.
+
+(* ---- everything together (RasterGlue.v) ---- *)
+Require Import RQ.RasterGlue.
+
+(* (16) EVERY OPERATION RETURNS.  On a well-formed target whose rasteriser is idle, every one of the 15 operations,
+   inside its documented preconditions (op_in_range: premultiplied sources, data lengths matching sizes, pops matching
+   pushes - no condition on any coordinate, size, rectangle, offset, transform, alpha, opacity or blend mode), returns Ok
+   and leaves a well-formed target with an idle rasteriser - or raises one of the two dependency errors of the four
+   non-separable blend modes.  The single remaining hypothesis is op_no_wrap: for the curve edges of a filled or
+   stroked path no slope quotient of ActiveEdge::step wraps the i32 range (computable; True for every other operation,
+   clip paths included: the clip rasteriser writes into a full-surface buffer and cannot leave it).  What the model
+   takes as data (the stroked outline of OpStroke, lyon's quadratics of a cubic) is produced by code this theorem does
+   not cover; those routines are compared with their f32 models and run under a watchdog.  Hence _partial. *)
+Theorem C07_every_operation_returns_partial : forall st o,
+  dt_wf st -> raster_ok st -> op_in_range st o -> op_no_wrap st o ->
+  (exists st', step_op st o = Ok st' /\ dt_wf st' /\ raster_ok st') \/
+  step_op st o = Err PixelOverflow \/ step_op st o = Err DebugAssert.
+Proof. exact step_op_total. Qed.
+Print Assumptions C07_every_operation_returns_partial.
+
+(* (17) with a separable blend mode (24 of 28), or none: it returns, full stop *)
+Theorem C07_every_operation_returns_separable_partial : forall st o,
+  dt_wf st -> raster_ok st -> op_in_range st o -> op_no_wrap st o -> op_separable st o ->
+  exists st', step_op st o = Ok st' /\ dt_wf st' /\ raster_ok st'.
+Proof. exact step_op_total_separable. Qed.
+Print Assumptions C07_every_operation_returns_separable_partial.
+
+(* (18) every call sequence from a fresh target *)
+Theorem C07_every_call_sequence_returns_partial : forall strict w h buf ops,
+  0 <= w <= i32_max -> 0 <= h <= i32_max -> w * h <= i32_max -> zlen buf = w * h -> Forall px_ok buf ->
+  run_ok_nw strict (dt_new w h buf) ops ->
+  match run_ops (dt_new w h buf) ops with
+  | Ok st' => dt_wf st' /\ raster_ok st' /\ all_premul st' /\ exists g, clip_inv st' g
+  | Err e => strict = false /\ (e = PixelOverflow \/ e = DebugAssert)
+  end.
+Proof. exact run_ops_total. Qed.
+Print Assumptions C07_every_call_sequence_returns_partial.
